@@ -145,11 +145,30 @@ Inductive c09_case :=
 | AllocCase (aggs : list agg) (R : Z) (impls : list (list (Z * Z * Z * Z)))
 | CalcCase (p n T R : Z) (impl : Z)
 (* DivvyingTips: SelectorTips deltas per delegator, sorted by id *)
-| DivvyCase (reporter rate reward : Z) (origins : list (Z * Z)) (total : Z) (credits : list (Z * Z)).
+| DivvyCase (reporter rate reward : Z) (origins : list (Z * Z)) (total : Z) (credits : list (Z * Z))
+(* the end blocker's aggregation pass (SetAggregatedReport) over the rounds that close in one block, in key order:
+   (eligible for time based rewards = reports carry the cycle-list flag, unpaid tip, the aggregate's reporters); R = the
+   balance of the time based rewards pool; impl = one entry per AllocateRewards call: (source pool: 1 oracle / 2 time
+   based rewards, coins moved, the AllocateTip calls) *)
+| EligCase (rounds : list (bool * Z * agg)) (R : Z) (impl : list (Z * Z * list (Z * Z * Z * Z))).
 
 Definition domain_ok_alloc (aggs : list agg) (R : Z) : bool :=
   let T := total_power aggs in
   (0 <? R) && (0 <? T) && (Z.of_nat (List.length (collect true aggs)) * T <=? 100000000000000000).
+
+(* what SetAggregatedReport pays: every tipped round its tip, to its own reporters; then the time based rewards, once,
+   to the reporters of the eligible rounds only *)
+Definition elig_expected (rounds : list (bool * Z * agg)) (R : Z) : list (Z * Z * list (Z * Z * Z * Z)) :=
+  flat_map (fun r => let '(_, tip, a) := r in if tip =? 0 then [] else [(1, tip, allocate_rewards true [a] tip)]) rounds
+  ++ (let el := map (fun r => snd r) (filter (fun r => fst (fst r)) rounds) in
+      match el with
+      | [] => []
+      | _ => if R =? 0 then [] else [(2, R, allocate_rewards true el R)]
+      end).
+Definition call_eqb (a b : Z * Z * list (Z * Z * Z * Z)) : bool :=
+  (fst (fst a) =? fst (fst b)) && (snd (fst a) =? snd (fst b)) && list_eqb pay_eqb (snd a) (snd b).
+Definition reporters_of_rounds (rs : list (bool * Z * agg)) : list Z :=
+  flat_map (fun r => map (fun x => fst (fst x)) (g_reporters (snd r))) rs.
 
 Definition c09_check (c : c09_case) : issues :=
   match c with
@@ -171,6 +190,16 @@ Definition c09_check (c : c09_case) : issues :=
       ++ diff_if (let m := divvy_credits true reporter rate reward origins total in
                   let ids := dedup_ids (map fst credits ++ map fst m) in
                   forallb (fun d => credit_of d m =? credit_of d credits) ids) "DivvyingTips credits"
+  | EligCase rounds R impl =>
+      let eligible := reporters_of_rounds (filter (fun r => fst (fst r)) rounds) in
+      let tbr_calls := filter (fun c => fst (fst c) =? 2) impl in
+      spec_if (forallb (fun c => forallb (fun p => let '(id, _, _, _) := p in existsb (Z.eqb id) eligible) (snd c)) tbr_calls)
+              "time based rewards were paid to a reporter of a round that is neither in the cycle list nor a bridge deposit"
+      ++ spec_if (Nat.leb (List.length tbr_calls) 1) "time based rewards were paid out more than once in one block"
+      ++ spec_if (forallb (fun c => snd (fst c) =? R) tbr_calls) "the time based rewards paid are not the balance of the pool"
+      ++ spec_if (match filter (fun r => fst (fst r)) rounds with [] => true | _ => (R =? 0) || negb (Nat.eqb (List.length tbr_calls) 0) end)
+                 "an eligible aggregate was made but no time based rewards were paid"
+      ++ diff_if (list_eqb call_eqb (elig_expected rounds R) impl) "SetAggregatedReport payments"
   end.
 
 Definition multi_origin_reporter (reporter : Z) (origins : list (Z * Z)) : bool :=
